@@ -1432,9 +1432,20 @@ class SpaceManager(SharedSpaceOperations):
 
         old_name = cells.name
 
+        targets = []
         for space in self._get_subs(cells.parent, skip_self=False):
+            c = space.cells[old_name]
+            if (c is not cells and c.is_derived() and
+                    self.get_deriv_bases(c, defined_only=True)[0] is not cells):
+                continue    # derived from another base that defines old_name
+            targets.append((space, c))
+
+        for space, c in targets:
             space.clear_subs_rootitems()
-            space.cells[old_name].on_rename(name)
+            c.on_rename(name)
+
+        # Sub spaces may derive old_name from another base now
+        self.update_subs(cells.parent)
 
     def sort_cells(self, space):
         """Sort cells in a space
